@@ -377,6 +377,13 @@ class Extractor:
     HAND = {
         "ErrorMessage": {"fixed": [("channel_id", B("BBytes 32")), ("data", B("BUtf8"))], "tail": ("TNone", [])},
         "WarningMessage": {"fixed": [("channel_id", B("BBytes 32")), ("data", B("BUtf8"))], "tail": ("TNone", [])},
+        # blinding point, then u16 length + onion_message::packet::Packet read inside a FixedLengthReader
+        "OnionMessage": {"fixed": [("blinding_point", B("BPk")), ("onion_routing_packet", B("BOmPacket"))], "tail": ("TNone", [])},
+    }
+    # further impl texts (other files) a hand model depends on: (file, regex of the impl header)
+    HAND_EXTRA = {
+        "OnionMessage": [("lightning/src/onion_message/packet.rs", r"impl Writeable for Packet\s*\{"),
+                         ("lightning/src/onion_message/packet.rs", r"impl LengthReadable for Packet\s*\{")],
     }
     HAND_HASH_FILE = os.path.join(os.path.dirname(os.path.abspath(__file__)), "hand_hashes.json")
 
@@ -390,6 +397,13 @@ class Extractor:
         self.hand_hashes = {}
         for name, side in self.HAND.items():
             txt = self.impl_body(r"impl Writeable for %s\s*\{" % name) + self.impl_body(r"impl LengthReadable for %s\s*\{" % name)
+            for (f, hdr) in self.HAND_EXTRA.get(name, []):
+                src = strip_comments(open(os.path.join(self.repo, f)).read())
+                m = re.search(hdr, src)
+                if not m:
+                    raise Refused("hand-modelled codec of %s: impl `%s` not found in %s" % (name, hdr, f))
+                i = src.index("{", m.end() - 1)
+                txt += src[i:balanced(src, i)]
             h = hashlib.sha256(re.sub(r"\s+", " ", txt).encode()).hexdigest()[:16]
             self.hand_hashes[name] = h
             if name in pinned and pinned[name] != h:
@@ -460,12 +474,61 @@ def unmodelled_types(names):
     return [_LAST["types"][n] for n in names if n in _LAST.get("types", {})]
 
 
+DECODER_SOURCES = ["lightning/src/util/ser.rs", "lightning/src/ln/msgs.rs", "lightning/src/onion_message/packet.rs", "lightning/src/ln/wire.rs"]
+
+
+def length_constants(repo):
+    """Buffer / chunk / limit constants visible in the decoder sources: named `const X: usize|u16|u32|u64 = expr;`
+    with a constant-foldable value, and integer literals >= 256 in non-test code. Returns {value: [where...]}."""
+    found = {}
+    for f in DECODER_SOURCES:
+        src = strip_comments(open(os.path.join(repo, f)).read())
+        cut = src.find("#[cfg(test)]\nmod tests")
+        if cut > 0:
+            src = src[:cut]
+        for m in re.finditer(r"const\s+(\w+)\s*:\s*(?:usize|u16|u32|u64)\s*=\s*([^;]+);", src):
+            expr = m.group(2).strip().replace("_", "")
+            if re.fullmatch(r"[\dxXa-fA-F\s()+*/-]+", expr):
+                try:
+                    v = int(eval(expr.replace("/", "//")))
+                except Exception:
+                    continue
+                if 16 <= v <= 1 << 20 and m.group(1) != "TYPE":  # wire message type ids are not lengths
+                    found.setdefault(v, []).append("%s:%s" % (os.path.basename(f), m.group(1)))
+        for m in re.finditer(r"(?<![\w.])(0x[0-9a-fA-F_]+|\d[\d_]*)(?:u8|u16|u32|u64|usize)?(?![\w.])", src):
+            t = m.group(1).replace("_", "")
+            try:
+                v = int(t, 16) if t.startswith("0x") else int(t)
+            except ValueError:
+                continue
+            before = src[max(0, m.start() - 2):m.start()].strip()
+            after = src[m.end():m.end() + 1]
+            if before.endswith("(") and after == ",":
+                continue  # `(NNN, field, kind)`: a TLV type number
+            if 1024 <= v <= 1 << 17:
+                found.setdefault(v, [])
+                if len(found[v]) < 3:
+                    found[v].append("%s:literal" % os.path.basename(f))
+    return found
+
+
+def length_thresholds(consts, cap=1 << 18):
+    t = set()
+    for k in consts:
+        for v in (k - 1, k, k + 1, 2 * k - 1, 2 * k + 1):
+            if 0 <= v <= cap:
+                t.add(v)
+    return sorted(t)
+
+
 def generate(repo):
     ex = Extractor(repo)
     schemas, unmodelled = ex.extract()
     _LAST["types"] = ex.types
     text = render_coq(schemas, unmodelled)
-    meta = {"schemas": schemas, "unmodelled": unmodelled, "types": ex.types, "hand_hashes": ex.hand_hashes}
+    consts = length_constants(repo)
+    meta = {"schemas": schemas, "unmodelled": unmodelled, "types": ex.types, "hand_hashes": ex.hand_hashes,
+            "length_constants": {str(k): v for k, v in sorted(consts.items())}, "length_thresholds": length_thresholds(consts)}
     return text, meta
 
 
